@@ -78,6 +78,17 @@ func checkConsistency(project *types.Project) error {
 			}
 		}
 
+		// links, `service:` namespaces and volumes_from name services too (when the model is normalised they are declared
+		// as dependencies and checked above; the references must exist either way)
+		for _, ref := range serviceReferences(s) {
+			if _, err := project.GetService(ref.name); err != nil {
+				if dep, ok := s.DependsOn[ref.name]; ok && errors.Is(err, errdefs.ErrDisabled) && !dep.Required {
+					continue
+				}
+				return fmt.Errorf("service %q refers to undefined service %q in %s: %w", s.Name, ref.name, ref.attribute, errdefs.ErrInvalid)
+			}
+		}
+
 		if strings.HasPrefix(s.NetworkMode, types.ServicePrefix) {
 			serviceName := s.NetworkMode[len(types.ServicePrefix):]
 			if _, err := project.GetServices(serviceName); err != nil {
@@ -173,4 +184,32 @@ func checkConsistency(project *types.Project) error {
 	}
 
 	return graph.CheckCycle(project)
+}
+
+type serviceReference struct {
+	attribute string
+	name      string
+}
+
+// serviceReferences lists the services a service names through links, `service:` namespaces (ipc, pid, uts, cgroup)
+// and volumes_from
+func serviceReferences(s types.ServiceConfig) []serviceReference {
+	var refs []serviceReference
+	for _, link := range s.Links {
+		name, _, _ := strings.Cut(link, ":")
+		refs = append(refs, serviceReference{"links", name})
+	}
+	for _, ns := range []serviceReference{{"ipc", s.Ipc}, {"pid", s.Pid}, {"uts", s.Uts}, {"cgroup", s.Cgroup}} {
+		if name, ok := strings.CutPrefix(ns.name, types.ServicePrefix); ok {
+			refs = append(refs, serviceReference{ns.attribute, name})
+		}
+	}
+	for _, vol := range s.VolumesFrom {
+		if strings.HasPrefix(vol, types.ContainerPrefix) {
+			continue
+		}
+		name, _, _ := strings.Cut(vol, ":")
+		refs = append(refs, serviceReference{"volumes_from", name})
+	}
+	return refs
 }
